@@ -91,6 +91,10 @@ func invokeGlobals(pooled bool) ugo.Map {
 }
 
 // kept: one Invoker per script function for the whole run (its child VM is re-used by every call)
+// cycledInvokers: a kept Invoker is acquired before and released after every call (Acquire / Invoke / Release
+// repeated on one Invoker object), every third call is made without Acquire after the Release
+var cycledInvokers bool
+
 func invokeGlobalsKept(pooled, kept bool) ugo.Map {
 	m := invokeGlobalsKept0(pooled, kept)
 	// a host function that panics: a script function which catches it behaves the same on a child VM
@@ -105,6 +109,8 @@ func invokeGlobalsKept0(pooled, kept bool) ugo.Map {
 	// the host re-uses one argument buffer for all its Invoke calls: the callee must not keep or
 	// write through it
 	argbuf := make([]ugo.Object, 0, 16)
+	ncalls := 0
+	var rootVM *ugo.VM
 	if kept {
 		return ugo.Map{
 			"invoke": &ugo.Function{Name: "invoke", ValueEx: func(c ugo.Call) (ugo.Object, error) {
@@ -117,12 +123,27 @@ func invokeGlobalsKept0(pooled, kept bool) ugo.Map {
 					args = append(args, c.Get(i))
 				}
 				inv := invokers[fn]
+				if rootVM == nil {
+					rootVM = c.VM() // the first call comes from the main script
+				}
 				if inv == nil {
-					inv = ugo.NewInvoker(c.VM(), fn)
-					if pooled {
+					vm := c.VM()
+					if cycledInvokers {
+						// child VMs are released during the run: a kept Invoker must not refer to one
+						vm = rootVM
+					}
+					inv = ugo.NewInvoker(vm, fn)
+					if pooled && !cycledInvokers {
 						inv.Acquire()
 					}
 					invokers[fn] = inv
+				}
+				if cycledInvokers {
+					ncalls++
+					if ncalls%3 != 0 {
+						inv.Acquire()
+						defer inv.Release()
+					}
 				}
 				return inv.Invoke(args...)
 			}},
@@ -174,7 +195,9 @@ func runInvokeTwin(args []*Sexp) *Sexp {
 		return out
 	}
 	switch mode {
-	case "direct", "callback-pooled", "callback-unpooled", "callback-kept-pooled", "callback-kept-unpooled":
+	case "direct", "callback-pooled", "callback-unpooled", "callback-kept-pooled", "callback-kept-unpooled", "callback-kept-cycled-pooled":
+		cycledInvokers = strings.Contains(mode, "cycled")
+		defer func() { cycledInvokers = false }()
 		src := "global (invoke, gopanic)\nout := []\n" + defs
 		for _, s := range seq {
 			src += callLine(s.List[0].Atom, callArgs(s), mode != "direct")
